@@ -68,6 +68,10 @@ fn make_bundle(j: usize) -> FluentBundleResult<FluentResource> {
     for d in 1..=j + 1 {
         src.push_str(&format!("m{} = b{}\n", d, j));
     }
+    for d in 1..=j + 1 {
+        // same depth structure, but formatting reports a RESOLVER error (unknown variable): the key is answered all the same
+        src.push_str(&format!("e{} = b{}{{ $zz }}\n", d, j));
+    }
     // present in every bundle, attributes only (no value): answers a messages request at once, never a value request
     src.push_str("ao =\n    .a = x\n");
     let res = FluentResource::try_new(src).expect("resource");
@@ -161,6 +165,8 @@ type Fut<'a> = Pin<Box<dyn Future<Output = Out> + 'a>>;
 fn key_ids(api: char, d: usize) -> Vec<String> {
     if api == 'v' {
         vec![format!("m{}", d)]
+    } else if api == 'e' {
+        vec![format!("e{}", d)]
     } else if api == 'n' {
         vec!["ao".to_string(), format!("m{}", d)]
     } else {
@@ -180,7 +186,7 @@ fn make_fut<'a>(b: &'a Bundles<Gen>, api: char, d: usize) -> Fut<'a> {
                 .map(|c| c.into_owned());
             (vec![r], errors)
         }),
-        's' => Box::pin(async move {
+        's' | 'e' => Box::pin(async move {
             let keys: Vec<L10nKey> = ids.iter().map(|i| L10nKey::from(i.as_str())).collect();
             let mut errors = vec![];
             let r = b.format_values(&keys, &mut errors).await;
@@ -210,7 +216,7 @@ fn run_sync(b: &Bundles<Gen>, api: char, d: usize) -> Result<Out, LocalizationEr
                 .map(|c| c.into_owned());
             (vec![r], errors)
         }
-        's' => {
+        's' | 'e' => {
             let keys: Vec<L10nKey> = ids.iter().map(|i| L10nKey::from(i.as_str())).collect();
             let r = b.format_values_sync(&keys, &mut errors)?;
             (r.into_iter().map(|o| o.map(|c| c.into_owned())).collect(), errors)
@@ -252,12 +258,14 @@ fn show_done(api: char, d: usize, out: &Out) -> String {
                 }
             }
             LocalizationError::MissingMessage { locale: None, .. } => {}
+            // api `e`: the answering bundle reports the unknown variable; that is part of the answer
+            LocalizationError::Resolver { .. } if api == 'e' => {}
             other => extra.push_str(&format!("~unexpected-error:{:?}", other).replace([';', ' '], "_")),
         }
     }
     let ans = answers.last().unwrap();
     let head = match ans {
-        Some(t) => match t.strip_prefix('b').and_then(|n| n.parse::<usize>().ok()) {
+        Some(t) => match t.strip_prefix('b').and_then(|n| n.chars().take_while(|c| c.is_ascii_digit()).collect::<String>().parse::<usize>().ok()) {
             Some(j) => {
                 got.push(j);
                 format!("R{}", j)
@@ -300,6 +308,7 @@ fn parse_op(k: usize, op: &str) -> Option<Op> {
                 "s" => 's',
                 "m" => 'm',
                 "n" => 'n',
+                "e" => 'e',
                 _ => return None,
             };
             if c >= k {
